@@ -27,7 +27,7 @@ from vt.util import V
 PROPERTY = "C20"
 TITLE = "Only library interfaces present in the declared range"
 NO_PYREX_IMPORT = True          # this check must be able to *report* a tree that does not import
-TECHNIQUE = ('runtime monitoring in fresh interpreters: import of every module with import attribution, resolution of every library attribute chain and function-level import of the loaded code against the live libraries, and an instrumented workload under attribute-recording proxies')
+TECHNIQUE = ('runtime monitoring in fresh interpreters: import of every module with import attribution, resolution of every library attribute chain and function-level import of the loaded code against the live libraries (try-guarded references told apart by the exception table, names in except headers included; method names that numpy.ndarray lost since the declared lower bound), and an instrumented workload under attribute-recording proxies')
 ANCHORS = []
 RULE = ("one 'import' case per module file of the package (fresh interpreter each); one 'walk' case over all function "
         "bodies of all loaded modules; one 'exec' case running the mixed workload under attribute-recording proxies; "
